@@ -322,6 +322,8 @@ func (i *IfUnless) readCondition(
 
 	var zaoriks []func()
 
+	p.IsLookahead = true
+
 	isOperator := func(t *base.T) bool {
 		switch {
 		case t.IsTargetIdentifier("&&"):
